@@ -387,9 +387,11 @@ func runC16(c *Ctx) {
 						if u, ok := cv.X.(*ssa.Call); ok && callName(u) == binU16 {
 							if l2, ok := u.Call.Args[1].(*ssa.UnOp); ok && l2.X == hPtr {
 								bOK = true
+								// the accepted lengths start at exactly 12 (a header-only message is a message, D14): `>= 12` / `> 11`
 								for _, gd := range guardsOfInstr(g) {
-									if cm, ok := gd.asCmp(); ok && cm.X == ssa.Value(u) && cm.Op == token.GTR {
-										if n, ok := constInt(cm.Y); ok && n >= 12 {
+									if cm, ok := gd.asCmp(); ok && cm.X == ssa.Value(u) {
+										n, isC := constInt(cm.Y)
+										if isC && ((cm.Op == token.GEQ && n == 12) || (cm.Op == token.GTR && n == 11)) {
 											minOK = true
 										}
 									}
@@ -400,7 +402,7 @@ func runC16(c *Ctx) {
 				}
 			}
 			c.check(bOK, "reader:body-size", instrPos(body), "body buffer has exactly the announced length", "the body buffer's size is not the decoded 16-bit length: the caller gets a buffer of another size than the frame")
-			c.check(minOK, "reader:min-length", instrPos(body), "lengths <= 12 are rejected before allocating", "a length smaller than a DNS header is not rejected before the body is read")
+			c.check(minOK, "reader:min-length", instrPos(body), "exactly the lengths < 12 are rejected before allocating", "the reader does not accept exactly the lengths >= 12 (the size of a DNS header): either a length smaller than a header is read, or a header-only message (12 bytes, e.g. a FORMERR reply) is refused and kills a pipelined connection with every query in flight")
 			// on body error: release + nil
 			if bPtr != nil {
 				for _, r := range referrers(body) {
